@@ -21,7 +21,8 @@ Definition tOp (t : tree) : op :=
   | 0 | 1 => Print (tZ (tNth t 1))     (* print / log: same event program (ConcP.log_same_events) *)
   | 2 => BeginBlock | 3 => EndBlock | 4 => BeginCap | 5 => EndCap
   | 6 => Update (tZ (tNth t 1)) (tNat (tNth t 2)) (tB (tNth t 3))
-  | 7 => Refresh | 8 => Tick | 9 => Start | _ => Stop
+  | 7 => Refresh | 8 => Tick | 9 => Start | 10 => Stop
+  | 11 => StopAuto (tNat (tNth t 1)) | _ => RefreshLoop
   end.
 Definition tLock (t : tree) : lockid :=
   match tZ t with 0 => LLive | 1 => LConsole | _ => LRecord end.
@@ -29,7 +30,8 @@ Definition tVev (t : tree) : tid * vev :=
   (tNat (tNth t 0),
    match tZ (tNth t 1) with
    | 0 => VAcq (tLock (tNth t 2)) | 1 => VRel (tLock (tNth t 2))
-   | 2 => VWrite (tList tItem (tNth t 2)) | 3 => VHooksRd | _ => VHooksWr
+   | 2 => VWrite (tList tItem (tNth t 2)) | 3 => VHooksRd | 4 => VHooksWr
+   | 5 => VSetDone | 6 => VWait (tB (tNth t 2)) | _ => VJoin
    end).
 Definition tRow (t : tree) : row :=
   match tZ (tNth t 0) with
@@ -82,6 +84,9 @@ Definition ops : list (string * (tree -> tree)) := [
       let progs := tProgs (tNth t 2) in
       observe (run (tB (tNth t 0)) (tList tNat (tNth t 3)) (tInit (tNth t 1) progs)) (length progs));
   ("spec.no_deadlock", fun t => ofB (tB (tNth t 0)));
+  (* [final #hooks, max #hooks, rows of the first frame row on screen]: start() ran once *)
+  ("spec.started_once", fun t =>
+      ofB ((tZ (tNth t 0) =? 1) && (tZ (tNth t 1) <=? 1) && (tZ (tNth t 2) <=? 1)));
   ("spec.writes_atomic", fun t => ofB (writes_atomic_b (tProgs (tNth t 0)) (tWrites (tNth t 1))));
   ("spec.captures_isolated", fun t => ofB (captures_isolated_b (tProgs (tNth t 0)) (tCaps (tNth t 1))));
   ("spec.record_order", fun t => ofB (record_order_b (tWrites (tNth t 0)) (tRecord (tNth t 1))));
